@@ -417,7 +417,17 @@ def _maybe_attach_shm(
     except (ValueError, UnicodeDecodeError):
         _logger.warning("Ignoring malformed SHM metadata: name=%r, size=%r", shm_name_bytes, shm_size_bytes)
         return None
-    return ShmSegment.attach(shm_name, shm_size, track=False)
+    try:
+        return ShmSegment.attach(shm_name, shm_size, track=False)
+    except (OSError, ValueError) as exc:
+        # The name and size are the peer's claim.  A segment that does not
+        # exist, cannot be opened, or is not one of ours is a malformed
+        # advertisement like the ones above, not a reason to end the
+        # connection: carry on without the side channel.  (A request that was
+        # itself routed through the missing segment is refused by
+        # _read_request's row-count check.)
+        _logger.warning("Ignoring unusable SHM segment: name=%r, size=%r (%s)", shm_name_bytes, shm_size_bytes, exc)
+        return None
 
 
 class _ConnectionShm:
